@@ -226,7 +226,10 @@ def build_features(focus: str) -> list:
     add('end', [-1.0, 0.5, 0.0, 1000.5], _set_ev('end'))
     add('ramp', [[[0.5, 0.0, DEF_CURVE]],
                  [[0.0, 1.0, DEF_CURVE], [1.5, Q(128), DEF_CURVE]],
-                 [[0.25, Q(51), CURVE_A]]]
+                 [[0.25, Q(51), CURVE_A]],
+                 # sample counts around the signed/unsigned boundary of the one-byte count field
+                 [[0.125 * i, Q(i % 256), DEF_CURVE] for i in range(127)], [[0.125 * i, Q(i % 256), DEF_CURVE] for i in range(128)],
+                 [[0.125 * i, Q(i % 256), DEF_CURVE] for i in range(255)]]
         + [[[0.5, 1.0, [a, b]]] for a, b in zip(INTERPS, reversed(INTERPS))], _set_ramp('ramp'), primary=3)
     add('ramp_left', [[True, 0.0, DEF_CURVE], [True, 0.5, CURVE_A]], _set_ramp('left'))
     add('ramp_right', [[True, 0.0, DEF_CURVE], [True, 0.25, CURVE_B]], _set_ramp('right'))
@@ -273,7 +276,8 @@ def build_features(focus: str) -> list:
     add('chan_name', STRS, _chan('name'))
     add('chan_active', [False], _chan('active'))
     # ---- scene
-    add('scene_ramp', [[[0.5, 0.0, DEF_CURVE]], [[0.0, 1.0, CURVE_B], [1000.5, Q(254), DEF_CURVE]]],
+    add('scene_ramp', [[[0.5, 0.0, DEF_CURVE]], [[0.0, 1.0, CURVE_B], [1000.5, Q(254), DEF_CURVE]],
+                       [[0.25 * i, Q((i * 7) % 256), DEF_CURVE] for i in range(128)], [[0.25 * i, Q((i * 7) % 256), DEF_CURVE] for i in range(200)]],
         _set_scene_ramp('ramp'))
     add('scene_ramp_left', [[True, 0.5, CURVE_A]], _set_scene_ramp('left'))
     add('scene_ramp_right', [[True, 0.0, DEF_CURVE]], _set_scene_ramp('right'))
